@@ -163,31 +163,41 @@ func (w *World) rulesV4Score(out *[]Obligation) {
 		}
 	}
 	if bad > 0 && !w.normalized {
-		// the decomposition is stated over Score's locals: undo the two
-		// refactorings that move values out of locals (normalize.go) and retry
-		w2, notes, err := w.normalizedWorld("40", []string{"Score", "macroVector"})
-		if err != nil {
-			w.Extra["v4_normalisation"] = "not applicable: " + err.Error()
-		}
-		if err == nil && w2 != nil {
-			w2.normalized = true
-			var second []Obligation
-			w2.rulesV4ScoreOn(&second)
-			bad2 := 0
-			for _, o := range second {
-				if !o.OK {
-					bad2++
-				}
+		// the decomposition is stated over Score's locals: undo the
+		// refactorings that move values out of locals (normalize.go), then those
+		// that move statements out of Score (normalize2.go), and retry
+		for attempt := 0; attempt < 2; attempt++ {
+			var w2 *World
+			var notes []string
+			var err error
+			if attempt == 0 {
+				w2, notes, err = w.normalizedWorld("40", []string{"Score", "macroVector"})
+			} else {
+				w2, notes, err = w.inlinedWorld("40", []string{"Score", "macroVector"})
 			}
-			w.Extra["v4_normalisation"] = fmt.Sprintf("%d failing obligations before, %d after: %s", bad, bad2, strings.Join(notes, "; "))
-			if bad2 < bad || os.Getenv("CVSSCHECK_FORCE_NORM") != "" {
-				second = append(second, Obligation{Rule: "R04.sibling", Instance: "40.Score.normalised", Pos: "40", OK: true, NonTrivial: true,
-					Detail: "Score analysed after source-level normalisation (equivalent program, type-checked through an overlay): " + strings.Join(notes, "; ")})
-				for k, v := range w2.Extra {
-					w.Extra[k] = v
+			if err != nil {
+				w.Extra["v4_normalisation"] = "not applicable: " + err.Error()
+			}
+			if err == nil && w2 != nil {
+				w2.normalized = true
+				var second []Obligation
+				w2.rulesV4ScoreOn(&second)
+				bad2 := 0
+				for _, o := range second {
+					if !o.OK {
+						bad2++
+					}
 				}
-				*out = append(*out, second...)
-				return
+				w.Extra["v4_normalisation"] = fmt.Sprintf("%d failing obligations before, %d after: %s", bad, bad2, strings.Join(notes, "; "))
+				if bad2 == 0 || (attempt == 1 && (bad2 < bad || len(second) > 4*len(first))) || os.Getenv("CVSSCHECK_FORCE_NORM") != "" {
+					second = append(second, Obligation{Rule: "R04.sibling", Instance: "40.Score.normalised", Pos: "40", OK: true, NonTrivial: true,
+						Detail: "Score analysed after source-level normalisation (equivalent program, type-checked through an overlay): " + strings.Join(notes, "; ")})
+					for k, v := range w2.Extra {
+						w.Extra[k] = v
+					}
+					*out = append(*out, second...)
+					return
+				}
 			}
 		}
 	}
@@ -316,7 +326,52 @@ func (w *World) rulesV4ScoreOn(out *[]Obligation) {
 				if om != nil && (om.ModifiedOf != "" || ov.byAbv["M"+om.Abv] != nil) {
 					add(false, "R10.mod", inst, fd, fmt.Sprintf("Score holds the raw value of %s in %s: an overridable metric must only be used through its effective value", ds[0], o.Name()))
 				} else if om != nil && om.Default != "" {
-					add(false, "R10.v4default", inst, fd, fmt.Sprintf("%s holds %s without replacing X by the specification default %s", o.Name(), ds[0], om.Default))
+					// a raw copy that only feeds the definition of other 8-bit locals
+					// (the default-substituted one among them) is an intermediate
+					feedsOnly, nUses := true, 0
+					var stk []ast.Node
+					ast.Inspect(fd.Body, func(x ast.Node) bool {
+						if x == nil {
+							stk = stk[:len(stk)-1]
+							return false
+						}
+						stk = append(stk, x)
+						id, ok := x.(*ast.Ident)
+						if !ok || p.Info.Uses[id] != o {
+							return true
+						}
+						nUses++
+						okUse := false
+						for i := len(stk) - 2; i >= 0; i-- {
+							if as, ok := stk[i].(*ast.AssignStmt); ok {
+								inPrefix := false
+								for _, ps := range m.prefix {
+									if ps == ast.Stmt(as) {
+										inPrefix = true
+									}
+								}
+								okUse = inPrefix && isU8Assign(p, as)
+								for _, l := range as.Lhs {
+									if identObj(p.Info, l) == o {
+										okUse = false
+									}
+								}
+								break
+							}
+							if _, isStmt := stk[i].(ast.Stmt); isStmt {
+								break
+							}
+						}
+						if !okUse {
+							feedsOnly = false
+						}
+						return true
+					})
+					if feedsOnly && nUses > 0 {
+						add(true, "R10.v4default", inst, fd, fmt.Sprintf("%s holds the raw code of %s and only feeds the definition of other locals (classified on their own)", o.Name(), ds[0]))
+					} else {
+						add(false, "R10.v4default", inst, fd, fmt.Sprintf("%s holds %s without replacing X by the specification default %s", o.Name(), ds[0], om.Default))
+					}
 				} else {
 					add(true, "R10.mod", inst, fd, fmt.Sprintf("%s = code(%s)", o.Name(), ds[0]))
 				}
